@@ -1128,7 +1128,8 @@ rrul_fill_yly(echs_instant_t *restrict tgt, size_t nti, rrulsp_t rr)
 			for (bitint_iter_t all = 0UL;
 			     res < nti && (yd = bi383_next(&all, &cand[(iy != 0) << (iy > 0)]), all);) {
 				for (ENUM_INIT(e, iS, iM, iH);
-				     ENUM_COND(e, iS, iM, iH);
+				     /* the cache may be full before the day is through */
+				     res < nti && ENUM_COND(e, iS, iM, iH);
 				     ENUM_ITER(e, iS, iM, iH)) {
 					echs_instant_t x = {
 						.y = y + iy,
@@ -1300,7 +1301,8 @@ rrul_fill_mly(echs_instant_t *restrict tgt, size_t nti, rrulsp_t rr)
 			for (bitint_iter_t all = 0UL;
 			     res < nti && (yd = bi383_next(&all, &cand[(iy != 0) << (iy > 0)]), all);) {
 				for (ENUM_INIT(e, iS, iM, iH);
-				     ENUM_COND(e, iS, iM, iH);
+				     /* the cache may be full before the day is through */
+				     res < nti && ENUM_COND(e, iS, iM, iH);
 				     ENUM_ITER(e, iS, iM, iH)) {
 					echs_instant_t x = {
 						.y = y + iy,
@@ -1448,7 +1450,8 @@ rrul_fill_wly(echs_instant_t *restrict tgt, size_t nti, rrulsp_t rr)
 			}
 
 			for (ENUM_INIT(e, iS, iM, iH);
-			     ENUM_COND(e, iS, iM, iH);
+			     /* the cache may be full before the day is through */
+			     res < nti && ENUM_COND(e, iS, iM, iH);
 			     ENUM_ITER(e, iS, iM, iH)) {
 				echs_instant_t x = {
 					.y = this_y,
@@ -1605,7 +1608,8 @@ rrul_fill_dly(echs_instant_t *restrict tgt, size_t nti, rrulsp_t rr)
 		}
 
 		for (ENUM_INIT(e, iS, iM, iH);
-		     ENUM_COND(e, iS, iM, iH); ENUM_ITER(e, iS, iM, iH)) {
+		     /* the cache may be full before the day is through */
+		     res < nti && ENUM_COND(e, iS, iM, iH); ENUM_ITER(e, iS, iM, iH)) {
 			echs_instant_t x = {
 				.y = y,
 				.m = m,
@@ -1787,7 +1791,8 @@ rrul_fill_Hly(echs_instant_t *restrict tgt, size_t nti, rrulsp_t rr)
 
 	bang:
 		for (ENUM_INIT(e, iS, iM);
-		     ENUM_COND(e, iS, iM); ENUM_ITER(e, iS, iM)) {
+		     /* the cache may be full before the hour is through */
+		     res < nti && ENUM_COND(e, iS, iM); ENUM_ITER(e, iS, iM)) {
 			echs_instant_t x = {
 				.y = y,
 				.m = m,
@@ -1970,7 +1975,9 @@ rrul_fill_Mly(echs_instant_t *restrict tgt, size_t nti, rrulsp_t rr)
 			continue;
 		}
 
-		for (ENUM_INIT(e, iS); ENUM_COND(e, iS); ENUM_ITER(e, iS)) {
+		for (ENUM_INIT(e, iS);
+		     /* the cache may be full before the minute is through */
+		     res < nti && ENUM_COND(e, iS); ENUM_ITER(e, iS)) {
 			echs_instant_t x = {
 				.y = y,
 				.m = m,
